@@ -10,7 +10,7 @@ pid, n = sys.argv[1], sys.argv[2]
 skip = "--skip-confirm" in sys.argv
 ROOT = os.environ.get("SEED_ROOT", "/tmp/seed")
 OFFSET = int(os.environ.get("SEED_OFFSET", "0"))
-W = "%s/%s" % (ROOT, pid)
+W = os.environ.get("SEED_WT", "%s/%s" % (ROOT, pid))
 OUT = W + "/OUT"
 patch = "%s/patch%s.diff" % (OUT, n)
 demo = "%s/demo%s.rs" % (OUT, n)
@@ -88,7 +88,7 @@ det = [c for c, v in caught.items() if v["exit"] != 0]
 print("DETECTED BY:", det)
 for c in det:
     for r in caught[c]["reports"][:3]: print("   ", c, r[:260])
-d = "/verif/seeded/%s-%s" % (pid, int(n) + OFFSET)
+d = "/verif/seeded/%s-%s" % (pid, os.environ.get("SEED_INDEX") or (int(n) + OFFSET))
 os.makedirs(d, exist_ok=True)
 prev_conf = None
 if skip and os.path.exists(d + "/meta.json"):
